@@ -4,20 +4,28 @@ import (
 	"fmt"
 	"go/ast"
 	"go/token"
-	"strconv"
+	"path/filepath"
+	"strings"
 )
 
 // Feeds (property C14): the string constants and regular-expression sources
 // the hand-written feed-parser models depend on.  The models hard-code how
 // these regular expressions match; Props/C14 states that the sources are still
 // the ones the models were written for.
+//
+// Shape-robust (design/EXTRACT.md): constants are looked up by name in the
+// whole package and folded (a literal, a concatenation, a reference to another
+// constant); a regular expression is `<name> = regexp.MustCompile(<constant
+// expression>)` in a var declaration or an assignment (init) anywhere in the
+// package; the osv repository table and rhcc's GoldRepo are evaluated by the
+// probe program go/cmd/rxprobe/feeds.
 
-// regexpSource finds `<name> = regexp.MustCompile(<lit>)` anywhere in the file
-// (assignment statement or var declaration).
-func regexpSource(f *ast.File, name string) (string, error) {
-	var lit *ast.BasicLit
+// regexpSource finds the one `<name> = regexp.MustCompile|MustCompilePOSIX(<constant expression>)`
+// of the package (var declaration or assignment statement).
+func regexpSource(p *rxPkg, name string) (string, error) {
+	var vals []string
 	n := 0
-	grab := func(lhs ast.Expr, rhs ast.Expr) {
+	grab := func(file *ast.File, scope *rxScope, lhs ast.Expr, rhs ast.Expr) {
 		id, ok := lhs.(*ast.Ident)
 		if !ok || id.Name != name {
 			return
@@ -27,83 +35,69 @@ func regexpSource(f *ast.File, name string) (string, error) {
 			return
 		}
 		sel, ok := call.Fun.(*ast.SelectorExpr)
-		if !ok || sel.Sel.Name != "MustCompile" {
+		if !ok || (sel.Sel.Name != "MustCompile" && sel.Sel.Name != "MustCompilePOSIX") {
 			return
 		}
-		if pk, ok := sel.X.(*ast.Ident); !ok || pk.Name != "regexp" {
+		if pk, ok := sel.X.(*ast.Ident); !ok || rxImportPath(file, pk.Name) != "regexp" {
 			return
 		}
-		if bl, ok := call.Args[0].(*ast.BasicLit); ok && bl.Kind == token.STRING {
-			lit = bl
-			n++
+		n++
+		if s, ok := scope.Str(call.Args[0]); ok {
+			if sel.Sel.Name == "MustCompilePOSIX" {
+				s = "POSIX:" + s
+			}
+			vals = append(vals, s)
 		}
 	}
-	ast.Inspect(f, func(nd ast.Node) bool {
-		switch x := nd.(type) {
-		case *ast.AssignStmt:
-			for i := range x.Lhs {
-				if i < len(x.Rhs) {
-					grab(x.Lhs[i], x.Rhs[i])
+	for _, f := range p.files {
+		for _, d := range f.Decls {
+			switch x := d.(type) {
+			case *ast.GenDecl:
+				for _, sp := range x.Specs {
+					if vs, ok := sp.(*ast.ValueSpec); ok {
+						for i := range vs.Names {
+							if i < len(vs.Values) {
+								grab(f, p.Scope(f), vs.Names[i], vs.Values[i])
+							}
+						}
+					}
 				}
-			}
-		case *ast.ValueSpec:
-			for i := range x.Names {
-				if i < len(x.Values) {
-					grab(x.Names[i], x.Values[i])
-				}
-			}
-		}
-		return true
-	})
-	if n != 1 {
-		return "", fmt.Errorf("expected exactly one `%s = regexp.MustCompile(literal)`, found %d", name, n)
-	}
-	return strconv.Unquote(lit.Value)
-}
-
-// c14CompositeStrings reads `var <name> = T{Field: "lit", ...}` at file level:
-// every field must be a string literal.
-func c14CompositeStrings(f *ast.File, name string) (map[string]string, error) {
-	for _, d := range f.Decls {
-		gd, ok := d.(*ast.GenDecl)
-		if !ok {
-			continue
-		}
-		for _, sp := range gd.Specs {
-			vs, ok := sp.(*ast.ValueSpec)
-			if !ok {
-				continue
-			}
-			for i, n := range vs.Names {
-				if n.Name != name || i >= len(vs.Values) {
+			case *ast.FuncDecl:
+				if x.Body == nil {
 					continue
 				}
-				cl, ok := vs.Values[i].(*ast.CompositeLit)
-				if !ok {
-					return nil, fmt.Errorf("%s is not a composite literal", name)
+				sc := p.ScopeOf(x)
+				local := false // a local variable of the same name shadows the package variable
+				ast.Inspect(x.Body, func(nd ast.Node) bool {
+					if as, ok := nd.(*ast.AssignStmt); ok && as.Tok == token.DEFINE {
+						for _, l := range as.Lhs {
+							if id, ok := l.(*ast.Ident); ok && id.Name == name {
+								local = true
+							}
+						}
+					}
+					return true
+				})
+				if local {
+					continue
 				}
-				out := map[string]string{}
-				for _, e := range cl.Elts {
-					kv, ok := e.(*ast.KeyValueExpr)
-					if !ok {
-						return nil, fmt.Errorf("%s: element without field name", name)
+				ast.Inspect(x.Body, func(nd ast.Node) bool {
+					if as, ok := nd.(*ast.AssignStmt); ok {
+						for i := range as.Lhs {
+							if i < len(as.Rhs) {
+								grab(f, sc, as.Lhs[i], as.Rhs[i])
+							}
+						}
 					}
-					k, ok := kv.Key.(*ast.Ident)
-					bl, ok2 := kv.Value.(*ast.BasicLit)
-					if !ok || !ok2 || bl.Kind != token.STRING {
-						return nil, fmt.Errorf("%s: field is not a string literal", name)
-					}
-					v, err := strconv.Unquote(bl.Value)
-					if err != nil {
-						return nil, err
-					}
-					out[k.Name] = v
-				}
-				return out, nil
+					return true
+				})
 			}
 		}
 	}
-	return nil, fmt.Errorf("variable %s not found", name)
+	if n != 1 || len(vals) != 1 {
+		return "", fmt.Errorf("%s: expected exactly one `%s = regexp.MustCompile(<constant>)`, found %d (%d with a constant argument)", p.dir, name, n, len(vals))
+	}
+	return vals[0], nil
 }
 
 func init() {
@@ -124,13 +118,13 @@ func init() {
 			{"rhel/vex/updater.go", "repoKey", "vexRepoKey"},
 		}
 		for _, c := range consts {
-			_, f, err := ParseFile(repo, c.file)
+			p, err := rxLoadPkg(repo, filepath.Dir(c.file))
 			if err != nil {
 				return "", err
 			}
-			v, err := StringConst(f, c.name)
+			v, err := p.StrConst(c.name)
 			if err != nil {
-				return "", fmt.Errorf("%s: %w", c.file, err)
+				return "", err
 			}
 			out += fmt.Sprintf("/-- %s %s -/\ndef %s : String := %s\n\n", c.file, c.name, c.lean, LeanString(v))
 		}
@@ -140,96 +134,84 @@ func init() {
 			{"pkg/ovalutil/dpkg.go", "validVersion", "ovalValidVersionRegex"},
 		}
 		for _, c := range res {
-			_, f, err := ParseFile(repo, c.file)
+			p, err := rxLoadPkg(repo, filepath.Dir(c.file))
 			if err != nil {
 				return "", err
 			}
-			v, err := regexpSource(f, c.name)
+			v, err := regexpSource(p, c.name)
 			if err != nil {
-				return "", fmt.Errorf("%s: %w", c.file, err)
+				return "", err
 			}
 			out += fmt.Sprintf("/-- %s %s (regexp source) -/\ndef %s : String := %s\n\n", c.file, c.name, c.lean, LeanString(v))
 		}
-		// updater/osv (*ecs).LookupRepository: repository name -> URI
-		{
-			_, f, err := ParseFile(repo, "updater/osv/osv.go")
-			if err != nil {
-				return "", err
-			}
-			fd := FuncDecl(f, "ecs", "LookupRepository")
-			if fd == nil {
-				return "", fmt.Errorf("updater/osv/osv.go: (*ecs).LookupRepository not found")
-			}
-			var sw *ast.SwitchStmt
-			nsw := 0
-			ast.Inspect(fd, func(n ast.Node) bool {
-				if s, ok := n.(*ast.SwitchStmt); ok {
-					sw = s
-					nsw++
-				}
-				return true
-			})
-			if nsw != 1 {
-				return "", fmt.Errorf("LookupRepository: expected one switch, found %d", nsw)
-			}
-			if id, ok := sw.Tag.(*ast.Ident); !ok || id.Name != "name" {
-				return "", fmt.Errorf("LookupRepository: switch is not on name")
-			}
-			out += "/-- updater/osv/osv.go (*ecs).LookupRepository: repository name ↦ URI -/\ndef osvRepoURIs : List (String × String) := ["
-			first := true
-			for _, c := range sw.Body.List {
-				cc := c.(*ast.CaseClause)
-				if cc.List == nil {
-					return "", fmt.Errorf("LookupRepository: unexpected default clause")
-				}
-				if len(cc.Body) != 1 {
-					return "", fmt.Errorf("LookupRepository: case body is not one assignment")
-				}
-				as, ok := cc.Body[0].(*ast.AssignStmt)
-				if !ok || len(as.Lhs) != 1 || len(as.Rhs) != 1 {
-					return "", fmt.Errorf("LookupRepository: case body is not one assignment")
-				}
-				if sel, ok := as.Lhs[0].(*ast.SelectorExpr); !ok || sel.Sel.Name != "URI" {
-					return "", fmt.Errorf("LookupRepository: assignment is not to .URI")
-				}
-				bl, ok := as.Rhs[0].(*ast.BasicLit)
-				if !ok || bl.Kind != token.STRING {
-					return "", fmt.Errorf("LookupRepository: URI is not a literal")
-				}
-				uri, _ := strconv.Unquote(bl.Value)
-				for _, e := range cc.List {
-					kl, ok := e.(*ast.BasicLit)
-					if !ok || kl.Kind != token.STRING {
-						return "", fmt.Errorf("LookupRepository: case label is not a literal")
-					}
-					k, _ := strconv.Unquote(kl.Value)
-					if !first {
-						out += ", "
-					}
-					first = false
-					out += "(" + LeanString(k) + ", " + LeanString(uri) + ")"
-				}
-			}
-			out += "]\n\n"
+		// updater/osv (*ecs).LookupRepository: repository name -> URI, evaluated on
+		// every string literal of the package ∪ the snapshot's names ∪ fresh probes
+		osvPkg, err := rxLoadPkg(repo, "updater/osv")
+		if err != nil {
+			return "", err
 		}
-		// rhel/rhcc/rhcc.go: var GoldRepo = claircore.Repository{Name: "...", URI: `...`}
-		{
-			_, f, err := ParseFile(repo, "rhel/rhcc/rhcc.go")
-			if err != nil {
-				return "", err
+		cands := rxSet{}
+		cands.add(rxSnapOsvRepos...)
+		for _, s := range osvPkg.StringLits() {
+			if len(s) <= 64 && !strings.ContainsAny(s, "\n%") {
+				cands.add(s, rxASCIILower(s), rxASCIIUpper(s))
 			}
-			fields, err := c14CompositeStrings(f, "GoldRepo")
-			if err != nil {
-				return "", fmt.Errorf("rhel/rhcc/rhcc.go: %w", err)
-			}
-			for k := range fields {
-				if k != "Name" && k != "URI" && k != "Key" {
-					return "", fmt.Errorf("rhel/rhcc/rhcc.go: GoldRepo sets field %s, which the model does not render", k)
-				}
-			}
-			out += fmt.Sprintf("/-- rhel/rhcc/rhcc.go GoldRepo, rendered Name|Key|URI -/\ndef rhccGoldRepoKey : String := %s\n\n",
-				LeanString(fields["Name"]+"|"+fields["Key"]+"|"+fields["URI"]))
 		}
+		for _, s := range rxSnapOsvRepos {
+			cands.add(rxCaseVariants(s)...)
+			cands.add(rxLooseVariants(s)...)
+		}
+		cands.add(rxSevFresh...)
+		cands.add("")
+		names := cands.sorted()
+		var ans struct {
+			Repos []struct {
+				Name, URI, Key string
+				Other          bool
+			} `json:"repos"`
+			Gold struct {
+				Name, URI, Key string
+				Other          bool
+			} `json:"gold"`
+		}
+		if err := rxProbe(repo, "feeds", map[string]any{"repos": names}, &ans); err != nil {
+			return "", err
+		}
+		if len(ans.Repos) != len(names) {
+			return "", fmt.Errorf("feeds probe: %d answers for %d questions", len(ans.Repos), len(names))
+		}
+		uri := map[string]string{}
+		for i, n := range names {
+			r := ans.Repos[i]
+			if r.Name != n || r.Key != "" || r.Other {
+				return "", fmt.Errorf("LookupRepository(%q) sets more than Name = name and URI (Name %q, Key %q, other fields %v): outside what the table can say", n, r.Name, r.Key, r.Other)
+			}
+			uri[n] = r.URI
+		}
+		for _, p := range rxSevFresh {
+			if uri[p] != "" {
+				return "", fmt.Errorf("LookupRepository gives an unknown name the URI %q: outside what the table can say", uri[p])
+			}
+		}
+		out += "/-- updater/osv/osv.go (*ecs).LookupRepository: repository name ↦ URI -/\ndef osvRepoURIs : List (String × String) := ["
+		var rows []string
+		listed := map[string]bool{}
+		for _, n := range rxSnapOsvRepos {
+			rows = append(rows, "("+LeanString(n)+", "+LeanString(uri[n])+")")
+			listed[n] = true
+		}
+		for _, n := range names {
+			if !listed[n] && uri[n] != "" {
+				rows = append(rows, "("+LeanString(n)+", "+LeanString(uri[n])+")")
+			}
+		}
+		out += strings.Join(rows, ", ") + "]\n\n"
+		// rhel/rhcc GoldRepo (evaluated)
+		if ans.Gold.Other {
+			return "", fmt.Errorf("rhel/rhcc/rhcc.go: GoldRepo sets a field besides Name, Key and URI, which the model does not render")
+		}
+		out += fmt.Sprintf("/-- rhel/rhcc/rhcc.go GoldRepo, rendered Name|Key|URI -/\ndef rhccGoldRepoKey : String := %s\n\n",
+			LeanString(ans.Gold.Name+"|"+ans.Gold.Key+"|"+ans.Gold.URI))
 		return out + Footer("Feeds"), nil
 	}})
 }
